@@ -71,6 +71,7 @@ class Runner:
         self.i = 0
         self.patfiles = 0
         self.geninfo = {}  # manifest path -> (croot, ceff abstract)
+        self.reread = {}  # manifest path -> list of differences between the tool's reader and the independent reader
 
     # -- environment ops ---------------------------------------------------------------
     def env(self, op):
@@ -121,6 +122,8 @@ class Runner:
             args = [rootarg]
             for f in op["F"]:
                 args += ["-h", f]
+            if op.get("hdup"):   # repeated -h
+                args += ["-h", op["F"][0]]
             if op.get("n"):
                 args.append("-n")
             if op.get("dr"):
@@ -143,6 +146,11 @@ class Runner:
                 args += ["-h", f]
             for s in op["S"]:
                 args += ["-sf", w.cpath(tuple(s))]
+            if op.get("dup"):   # the same files named again, directly and through their folders
+                for s in op["S"]:
+                    args += ["-sf", w.cpath(tuple(s))]
+                    if len(s) > 1:
+                        args += ["-sf", w.cpath(tuple(s[:-1]))]
             return C.create, args, cwd
         if k == "verify":
             args = [rootarg]
@@ -287,6 +295,8 @@ class Runner:
             for mp in new_manifests:
                 pj.snapdisk[mp] = pre["disk"]
                 self.geninfo[mp] = (list(op["R"]), [abstract_pattern(w, p) for p in eff])
+        for mp in new_manifests:
+            self.reread[mp] = self.reread_check(mp)
         if k == "flatten":
             fl = [p for p in new_manifests if p.startswith(w.flat_dest)]
             if fl:
@@ -362,12 +372,36 @@ class Runner:
                 g["pats"] = [abstract_pattern(w, p) for p in g.get("pats", [])]
                 info = self.geninfo.get(os.path.join(folder, g["name"])) if folder else None
                 g["croot"], g["ceff"] = info if info else (h["h"], [])
-                for k, dflt in (("files", []), ("dirs", []), ("refs", []), ("snap", []), ("proc", ""), ("cdate", ""), ("xsd_ok", False), ("root", {"has": False, "fmts": [], "cok": [], "sok": [], "hs": []})):
+                g["reread_ok"] = not self.reread.get(os.path.join(folder, g["name"]) if folder else "", [])
+                for k, dflt in (("files", []), ("dirs", []), ("refs", []), ("snap", []), ("proc", ""), ("cdate", ""), ("xsd_ok", False), ("reread_ok", True), ("root", {"has": False, "fmts": [], "cok": [], "sok": [], "hs": []})):
                     g.setdefault(k, dflt)
                 gens.append(g)
             h["gens"] = gens
             out.append(h)
         return out
+
+    def reread_check(self, mp):
+        """C10 on every manifest any command writes: the tool's reader and the independent reader agree"""
+        from . import xmlcheck
+        import ascmhl.hashlist_xml_parser as HX
+
+        try:
+            with open(mp, "rb") as fh:
+                m = PJ.parse_manifest(fh.read())
+            if "broken" in m:
+                return ["independent reader: " + m["broken"]]
+            cr = m["creator"]
+            exp = {"hostname": cr.get("hostname"), "location": cr.get("location"), "comment": cr.get("comment"), "authors": cr.get("authors", []),
+                   "proc": m["proc"], "pats": m["pats"],
+                   "files": [{"path": r["path"], "size": int(r["size"]) if r["size"] is not None else None, "ents": [{"f": e["f"], "d": e["d"], "a": e["a"]} for e in r["ents"]], "prev": r["prev"]} for r in m["files"]],
+                   "dirs": [{"path": r["path"], "ents": [{"f": c["f"], "c": c["d"], "s": s_["d"]} for c, s_ in zip(r["content"], r["structure"])], "prev": r["prev"]} for r in m["dirs"]],
+                   "root": None if m["root"] is None else [{"f": c["f"], "c": c["d"], "s": s_["d"]} for c, s_ in zip(m["root"]["content"], m["root"]["structure"])],
+                   "refs": m["refs"]}
+            parsed = HX.parse(mp)
+            bad = [b for b in xmlcheck.compare_tool(parsed, exp) if not b.startswith("hashdate")]
+            return bad
+        except Exception as e:
+            return ["%s: %s" % (type(e).__name__, e)]
 
     def copy_verify(self, op):
         """verify in place, then copy the sealed tree to other locations and verify there"""
